@@ -46,7 +46,7 @@ class C02(Prop):
         # structure kinds x branch positions x what may stand there (an element, X, x), one and two levels deep
         slots = ["[{}]", "[1|{}]", "[1|2|{}]", "[1|2|3|{}]", "({})", "(i|{})", "{{{}|1}}", "{{1|{}}}", "{{{}}}", "λ{};", "λ2|{};", "ƛ{};", "'{};", "µ{};", "⟨{}⟩", "⟨1|{}⟩", "@f|{};", "@f:a:2|{};", "@f:*|{};",
                  "v{}", "&{}", "~{}", "ß{}", "ƒ{}", "ɖ{}", "⁽{}", "₌{}+", "₌+{}", "‡{}+", "‡+{}", "₍{}+", "≬{}++", "≬++{}", "{}"]
-        fills = ["+", "X", "x", "1", "`a`", "", "+X", "X+", "[X]", "(x)", "⟨X⟩", "λX;", "ƛx;", "vX", "¨…", "n", "\n", "\n+", " ", "∆", "#c\n"]
+        fills = ["+", "X", "x", "1", "`a`", "", "+X", "X+", "[X]", "(x)", "⟨X⟩", "λX;", "ƛx;", "vX", "¨…", "n", "\n", "\n+", " ", "∆", "#c\n", "‛a\\", "\\\\", "`a\\\\`", "‛\\ 1"]
         for s in slots:
             for f in fills:
                 if f in ("", " ", "#c\n", "∆", "\n", "\n+") and s[0] in "v&~ßƒɖ⁽₌‡₍≬":
@@ -127,6 +127,14 @@ class C02(Prop):
         except Exception as e:  # noqa
             return Ground(name, False, f"transpile raised {type(e).__name__}: {e}", witness=dict(program=prog, raised=type(e).__name__))
         err = compiles(code)
+        if err is None and any(c in prog for c in "`‛«»"):
+            # dictionary compression off (flag D) is the other way the same program is lowered
+            try:
+                err = compiles(transpile(prog, dict_compress=False))
+            except Exception as e:  # noqa
+                return Ground(name, False, f"transpile(dict_compress=False) raised {type(e).__name__}: {e}", witness=dict(program=prog, dict_compress=False, raised=type(e).__name__))
+            if err:
+                return Ground(name, False, err, witness=dict(program=prog, dict_compress=False, error=err, cause=None))
         return Ground(name, err is None, err or "", witness=dict(program=prog, error=err, cause=self.cause(prog) if err else None))
 
     def enumerate_short(self, maxlen):
